@@ -324,7 +324,19 @@ def cmp_constraints(draw: Any) -> str:
     o = lambda: draw(st.sampled_from(pool))  # noqa: E731
     c = lambda: draw(st.sampled_from(CMP_TEXT))  # noqa: E731
     shape = draw(st.sampled_from(["plain", "plain", "chain", "right_paren", "left_paren", "both_paren", "not_plain",
-                                  "not_right_paren", "chain3", "paren_chain"]))
+                                  "not_right_paren", "chain3", "paren_chain", "cond_and", "and_cond", "cond_cmp", "cmp_cond",
+                                  "paren_cond_cmp"]))
+    b = lambda: draw(st.sampled_from(["and", "or"]))  # noqa: E731
+    if shape == "cond_and":
+        return f"{o()} if {o()} else {o()} {b()} {o()}"
+    if shape == "and_cond":
+        return f"{o()} {b()} {o()} if {o()} else {o()}"
+    if shape == "cond_cmp":
+        return f"{o()} if {o()} else {o()} {c()} {o()}"
+    if shape == "cmp_cond":
+        return f"{o()} {c()} {o()} if {o()} else {o()}"
+    if shape == "paren_cond_cmp":
+        return f"({o()} if {o()} else {o()}) {c()} {o()}"
     if shape == "plain":
         return f"{o()} {c()} {o()}"
     if shape == "chain":
